@@ -89,6 +89,22 @@ fn makers() -> Vec<Form> {
                 Box::new(Body { defs: vec![Def { name: "n".into(), value: Expr::Int(0), sugar: false }], exprs: vec![lam(&[], vec![inc("n", Expr::Int(10)), var("n")])] }),
             ),
         }),
+        // the closure is made inside a frame of its own while the maker's frame is still empty; its state is the
+        // internal definition that follows (a global of the same name exists: g1)
+        Form::Define(Def {
+            name: "mk-late".into(),
+            sugar: true,
+            value: Expr::Lambda(
+                Formals { fixed: vec![], rest: None },
+                Box::new(Body {
+                    defs: vec![
+                        Def { name: "bump".into(), value: Expr::Let(vec![("step".into(), Expr::Int(1))], body1(lam(&[], vec![inc("g1", var("step")), var("g1")]))), sugar: false },
+                        Def { name: "g1".into(), value: Expr::Int(0), sugar: false },
+                    ],
+                    exprs: vec![var("bump")],
+                }),
+            ),
+        }),
         // assignment to a parameter must not leak
         dp("bump-param", &["x"], vec![inc("x", Expr::Int(1)), var("x")]),
         // write through a vector received as argument
@@ -112,7 +128,11 @@ pub fn gen_history(ch: &mut Chooser, max_steps: usize) -> History {
             0 => {
                 // instantiate a counter-like closure
                 let n = *ch.pick(&counters);
-                match ch.below(4) {
+                match ch.below(5) {
+                    4 => {
+                        h.forms.push(d(n, app("mk-late", vec![])));
+                        h.names.push((n.into(), Kind::Counter));
+                    }
                     0 => {
                         h.forms.push(d(n, app("mk-counter", vec![Expr::Int(ch.range(0, 9) as i32)])));
                         h.names.push((n.into(), Kind::Counter));
@@ -469,7 +489,7 @@ pub fn run(ctx: &Ctx) {
          addresses) compared with the model's. Non-trivial = a write observed through another access path, or several \
          closures over shared/distinct bindings exercised.",
     );
-    let cases = ctx.tier.pick(3_000, 40_000);
+    let cases = ctx.tier.pick(6_000, 40_000);
     let steps = ctx.tier.pick(30, 60);
     ctx.random("histories", cases, 400, |ch| case(ch, steps));
 }
